@@ -106,34 +106,34 @@ thread-local variables hold) or its own id cached — the line consists of the t
 (right-aligned in five columns, then a space), then the rest; the `assert` of the helper class `T` holds (no abort
 in a build with asserts), and afterwards the thread has its own id cached.  The proof goes through
 `tidCachedBeforeUse`: it is the call `CurrentThread::tid();` in `Impl::Impl` that makes the two cases equal. -/
-theorem tid_field_true (z : Zone) (c : TimeCache) (t : TidState) (r : LogReq)
+theorem tid_field_true (z : Zone) (gen : Int) (c : TimeCache) (t : TidState) (r : LogReq)
     (hpos : 0 < r.tid) (hmax : r.tid < 2 ^ 31)
     (ht : t.cached = 0 ∨ t = TidState.of r.tid) :
     (∃ stamp rest, stamp.length = 17 + usWidth z ∧
-      (logLine z c t r).text = stamp ++ (fmtInt false 5 r.tid ++ [32]) ++ rest) ∧
-    (logLine z c t r).asserts = true ∧ (logLine z c t r).tid = TidState.of r.tid := by
+      (logLine z gen c t r).text = stamp ++ (fmtInt false 5 r.tid ++ [32]) ++ rest) ∧
+    (logLine z gen c t r).asserts = true ∧ (logLine z gen c t r).tid = TidState.of r.tid := by
   have h0 : r.tid ≠ 0 := by omega
   have hb : tidCachedBeforeUse = true := tid_cached_before_use.1
   rw [tidCachedBeforeUse_tie] at hb
   -- whatever the thread had cached, `Impl::Impl` does what it does on a thread that has cached its own id
-  have hrun : implRun z (lineEnv z c t r) implSteps = implRun z (lineEnv z c (TidState.of r.tid) r) implSteps :=
-    implRun_cached z implSteps hb (lineEnv z c t r) h0 ht
+  have hrun : implRun z (lineEnv z gen c t r) implSteps = implRun z (lineEnv z gen c (TidState.of r.tid) r) implSteps :=
+    implRun_cached z implSteps hb (lineEnv z gen c t r) h0 ht
   have hasserts : ∀ e : LineEnv, e.req.tid ≠ 0 → e.tid.okFor e.req.tid →
       implAsserts z e implSteps = implAsserts z { e with tid := TidState.of e.req.tid } implSteps := by
     intro e h0 hok
     rcases hok with hk | hk
     · simp [implSteps, implAsserts, implStep, tidCall_empty _ _ hk, tidCall_of _ h0]
     · rw [← hk]
-  have htext : (logLine z c t r).text = (logLine z c (TidState.of r.tid) r).text := by
+  have htext : (logLine z gen c t r).text = (logLine z gen c (TidState.of r.tid) r).text := by
     simp only [logLine, logLineOf, lineItemsOf, hrun]
   refine ⟨?_, ?_, ?_⟩
   · rw [htext]
-    obtain ⟨tail, e⟩ := implRun_shape z (lineEnv z c (TidState.of r.tid) r)
+    obtain ⟨tail, e⟩ := implRun_shape z (lineEnv z gen c (TidState.of r.tid) r)
     have hf : tidField (tidCall r.tid (TidState.of r.tid)) = fmtInt false 5 r.tid ++ [32] := by
       rw [tidCall_of _ h0, tidField_of, tidText_eq]
-    exact line_three implSteps z c (TidState.of r.tid) r _ (fmtInt_space_length r.tid (by omega) (by omega))
+    exact line_three implSteps z gen c (TidState.of r.tid) r _ (fmtInt_space_length r.tid (by omega) (by omega))
       ⟨tail, by rw [e]; simp only [lineEnv, hf]⟩
-  · have := hasserts (lineEnv z c t r) h0 ht
+  · have := hasserts (lineEnv z gen c t r) h0 ht
     simp only [logLine, logLineOf]
     rw [this]
     exact implAsserts_of z _ h0 rfl
@@ -143,13 +143,13 @@ theorem tid_field_true (z : Zone) (c : TimeCache) (t : TidState) (r : LogReq)
 /-- **the excluded branch** — what the line would be without the call (the statement list of `Impl::Impl` with
 `CurrentThread::tid();` taken out) on a thread that has run nothing of muduo: in place of the id, six bytes of the
 zero-filled `t_tidString` (`t_tidStringLength` is statically 6), and the `assert` of `T` fails -/
-theorem tid_field_without_call (z : Zone) (c : TimeCache) (r : LogReq) :
+theorem tid_field_without_call (z : Zone) (gen : Int) (c : TimeCache) (r : LogReq) :
     (∃ stamp rest, stamp.length = 17 + usWidth z ∧
-      (logLineOf (implSteps.filter (· ≠ .callTid)) z c TidState.fresh r).text = stamp ++ List.replicate 6 0 ++ rest) ∧
-    (logLineOf (implSteps.filter (· ≠ .callTid)) z c TidState.fresh r).asserts = false := by
+      (logLineOf (implSteps.filter (· ≠ .callTid)) z gen c TidState.fresh r).text = stamp ++ List.replicate 6 0 ++ rest) ∧
+    (logLineOf (implSteps.filter (· ≠ .callTid)) z gen c TidState.fresh r).asserts = false := by
   constructor
-  · obtain ⟨tail, e⟩ := implRun_shape_nocall z (lineEnv z c TidState.fresh r)
-    exact line_three _ z c TidState.fresh r _ (by decide)
+  · obtain ⟨tail, e⟩ := implRun_shape_nocall z (lineEnv z gen c TidState.fresh r)
+    exact line_three _ z gen c TidState.fresh r _ (by decide)
       ⟨tail, by rw [e]; simp only [lineEnv, tidField_fresh.1]⟩
   · have hf : implSteps.filter (· ≠ .callTid) = [.formatTime, .ins [.tid], .ins [.level 6],
         .errnoIf [.errtext, .lit [32, 40, 101, 114, 114, 110, 111, 61], .errno, .lit [41, 32]]] := by decide
@@ -181,45 +181,50 @@ theorem entry_state_ok (tid : Int) (kind : ThreadKind) :
 /-- **… on every kind of thread, also in a forked child**: the line of a thread of any kind carries that thread's
 own id; for the child of a `fork()` this holds whatever the forking thread had cached (in particular its own,
 different, id) -/
-theorem tid_field_true_all_kinds (z : Zone) (c : TimeCache) (r : LogReq) (kind : ThreadKind)
+theorem tid_field_true_all_kinds (z : Zone) (gen : Int) (c : TimeCache) (r : LogReq) (kind : ThreadKind)
     (hpos : 0 < r.tid) (hmax : r.tid < 2 ^ 31) :
     ∃ stamp rest, stamp.length = 17 + usWidth z ∧
-      (logLine z c (entryState r.tid kind) r).text = stamp ++ (fmtInt false 5 r.tid ++ [32]) ++ rest :=
-  (tid_field_true z c _ r hpos hmax (entry_state_ok r.tid kind)).1
+      (logLine z gen c (entryState r.tid kind) r).text = stamp ++ (fmtInt false 5 r.tid ++ [32]) ++ rest :=
+  (tid_field_true z gen c _ r hpos hmax (entry_state_ok r.tid kind)).1
 
 /-- the hypotheses are satisfiable, and the field is what one expects: thread 1234 that has cached nothing logs ` 1234 ` -/
-example : ((logLine none TimeCache.fresh TidState.fresh
+example : ((logLine none 0 TimeCache.fresh TidState.fresh
     { level := 2, errno := 0, errText := [], func := none, file := [97], line := 1, tid := 1234, us := 1000000,
       msg := [] }).text.drop 26).take 6 = [32, 49, 50, 51, 52, 32] := by decide
 
-/-! ## the time stamp (F18: known finding) -/
+/-! ## the time stamp -/
 
-/-- **the time field is the break-down of the logged instant in the configured zone** — as far as the code
-guarantees it: when the thread's cached second differs from the instant's second (the text is rebuilt in the zone
-in force) or the cached text was built in the zone that is still configured.  The line starts with the first 17
-characters of `"%4d%02d%02d %02d:%02d:%02d"` of `toLocalTime` / `toUtcTime` of that second. -/
-theorem line_time_partial (z : Zone) (c : TimeCache) (t : TidState) (r : LogReq)
-    (h : cacheMiss (splitSeconds r.us) c.lastSecond ∨ c.text = secondText z (splitSeconds r.us)) :
-    ∃ rest, (logLine z c t r).text = readN 17 (secondText z (splitSeconds r.us)) ++ rest := by
-  have ht : (lineEnv z c t r).timeText = secondText z (splitSeconds r.us) := by
+/-- one line: when the cached text is rebuilt, or was built for this second in the configured zone, the line starts
+with the first 17 characters of `"%4d%02d%02d %02d:%02d:%02d"` of `toLocalTime` / `toUtcTime` of that second -/
+theorem line_time_step (z : Zone) (gen : Int) (c : TimeCache) (t : TidState) (r : LogReq)
+    (h : cacheMiss (splitSeconds r.us) c.lastSecond gen c.zoneGen ∨ c.text = secondText z (splitSeconds r.us)) :
+    ∃ rest, (logLine z gen c t r).text = readN 17 (secondText z (splitSeconds r.us)) ++ rest := by
+  have ht : (lineEnv z gen c t r).timeText = secondText z (splitSeconds r.us) := by
     simp only [lineEnv, cacheStep]
-    by_cases hm : cacheMiss (splitSeconds r.us) c.lastSecond
+    by_cases hm : cacheMiss (splitSeconds r.us) c.lastSecond gen c.zoneGen
     · simp [hm]
     · simp [hm, h.resolve_left hm]
-  obtain ⟨tail, e⟩ := implRun_shape z (lineEnv z c t r)
+  obtain ⟨tail, e⟩ := implRun_shape z (lineEnv z gen c t r)
   simp only [logLine, logLineOf, lineItemsOf, e, List.cons_append, ht]
   rw [run_str _ _ _ (by simp [readN_length, avail, mkBuf, kSmallBuffer])]
   obtain ⟨more, em⟩ := run_prefix { mkBuf kSmallBuffer with data := (mkBuf kSmallBuffer).data ++ readN 17 (secondText z (splitSeconds r.us)) } _
   exact ⟨more, by rw [em]; simp [mkBuf]⟩
 
-/-- **F18, negation witness**: without that hypothesis the statement is false — the line logged 0.1 s after
-`Logger::setTimeZone(+8h)`, in the same second as the previous line of the thread, shows the UTC wall time
-(`20260926 21:02:08`), not the time in the configured zone (`20260927 05:02:08`) -/
-theorem line_time_fails_witness :
-    ∃ (ops : List LogOp) (z : Zone) (us : Int),
-      ops = [.log (f18Req 1790456528568059), .setZone z, .log (f18Req us)] ∧
-      ((logRun (LogState.init (TidState.of 1400)) ops).getD 1 []).take 17 ≠ readN 17 (secondText z (splitSeconds us)) :=
-  ⟨_, some 28800, 1790456528668059, rfl, by decide +kernel⟩
+/-- **the time field of every line is the break-down of the logged instant in the zone that is configured when the
+line is logged** — after any history of log statements and `Logger::setTimeZone` calls on the process, also when the
+zone was changed inside the second the thread has cached (F18, repaired: `setTimeZone` bumps `g_logTimeZoneGen`, and
+`formatTime` rebuilds the text when the second *or the generation* differs from what the thread cached).  Both for
+the thread whose history `ops` is and for a thread that logs its first line at that moment (fresh cache). -/
+theorem line_time (t : TidState) (ops : List LogOp) (r : LogReq)
+    (hops : ∀ r', LogOp.log r' ∈ ops → splitSeconds r'.us ≠ 0) (hr : splitSeconds r.us ≠ 0) :
+    let s := logAfter (LogState.init t) ops
+    (∃ rest, (logLine s.zone s.gen s.cache s.tid r).text = readN 17 (secondText s.zone (splitSeconds r.us)) ++ rest) ∧
+    (∀ t', ∃ rest, (logLine s.zone s.gen TimeCache.fresh t' r).text = readN 17 (secondText s.zone (splitSeconds r.us)) ++ rest) := by
+  intro s
+  have hinv : TimeInv s := timeInv_after ops (LogState.init t) (timeInv_init t) hops
+  refine ⟨line_time_step _ _ _ _ _ ?_, fun t' => line_time_step _ _ _ _ _ (Or.inl ?_)⟩
+  · exact timeInv_hit_or_miss s r hinv hr
+  · exact cacheMiss_fresh _ _ hr
 
 /-! ## formatSI / formatIEC -/
 
